@@ -45,6 +45,8 @@ type ObsOpts struct {
 	// SortedMaps: compare maps as sets of entries (for typed maps after a key-sorting codec).
 	// Never set for C01.
 	NoLookups    bool // skip the lookup forms (used for the light recursive comparison)
+	Typed        bool // schema-typed node: lookups of unknown keys may fail with any error type
+	PrimaryOnly  bool // only what the node CONTAINS: kinds, scalars, iteration, lookups of present entries
 	AbsentKeys   []string
 	WrongKindErr bool // require errors of kind-inappropriate accessors to be datamodel.ErrWrongKind
 }
@@ -80,6 +82,12 @@ func (c Conc) checkObs(n datamodel.Node, v Value, o ObsOpts, path string) (res *
 }
 
 func (c Conc) checkObs1(n datamodel.Node, v Value, o ObsOpts, path string) *Mismatch {
+	if v.K == "absent" { // schema-level absence: the dedicated Absent value
+		if !n.IsAbsent() {
+			return mm(path, "IsAbsent", true, fmt.Sprintf("false (kind %s)", KindName(n.Kind())))
+		}
+		return nil
+	}
 	wantKind := KindOf(v.K)
 	if n.Kind() != wantKind {
 		return mm(path, "kind", v.K, KindName(n.Kind()))
@@ -95,7 +103,7 @@ func (c Conc) checkObs1(n datamodel.Node, v Value, o ObsOpts, path string) *Mism
 	if v.K == "map" || v.K == "list" {
 		wantLen = int64(len(v.Vs))
 	}
-	if got := n.Length(); got != wantLen {
+	if got := n.Length(); got != wantLen && !(o.PrimaryOnly && wantLen == -1) {
 		return mm(path, "Length", wantLen, got)
 	}
 	// scalar accessors: the appropriate one returns the value, all others a wrong-kind error
@@ -131,16 +139,18 @@ func (c Conc) checkObs1(n datamodel.Node, v Value, o ObsOpts, path string) *Mism
 		if !itr.Done() {
 			return mm(path, "MapIterator.Done", "true at end", "false")
 		}
-		if _, _, err := itr.Next(); err == nil {
-			return mm(path, "MapIterator.overread", "error", "nil error")
-		}
-		if n.ListIterator() != nil {
-			return mm(path, "ListIterator.on.map", "nil", "iterator")
+		if !o.PrimaryOnly {
+			if _, _, err := itr.Next(); err == nil {
+				return mm(path, "MapIterator.overread", "error", "nil error")
+			}
+			if n.ListIterator() != nil {
+				return mm(path, "ListIterator.on.map", "nil", "iterator")
+			}
 		}
 		if o.NoLookups {
 			return nil
 		}
-		light := ObsOpts{NoLookups: true}
+		light := ObsOpts{NoLookups: true, Typed: o.Typed, PrimaryOnly: o.PrimaryOnly}
 		for i := range v.Vs {
 			key := c.Key(v.Ks[i])
 			got, err := n.LookupByString(key)
@@ -168,6 +178,9 @@ func (c Conc) checkObs1(n datamodel.Node, v Value, o ObsOpts, path string) *Mism
 				return m
 			}
 		}
+		if o.PrimaryOnly {
+			return nil
+		}
 		absent := append([]string{"\x01absent-key\x01"}, o.AbsentKeys...)
 		for _, key := range absent {
 			present := false
@@ -181,7 +194,7 @@ func (c Conc) checkObs1(n datamodel.Node, v Value, o ObsOpts, path string) *Mism
 			}
 			if got, err := n.LookupByString(key); err == nil {
 				return mm(path, "LookupByString.absent", "not_exists", fmt.Sprintf("ok (%v)", got))
-			} else if !isNotExists(err) {
+			} else if !isNotExists(err) && !o.Typed {
 				return mm(path, "LookupByString.absent.errtype", "ErrNotExists", fmt.Sprintf("%T", err))
 			}
 			if _, err := n.LookupBySegment(datamodel.PathSegmentOfString(key)); err == nil {
@@ -214,16 +227,18 @@ func (c Conc) checkObs1(n datamodel.Node, v Value, o ObsOpts, path string) *Mism
 		if !itr.Done() {
 			return mm(path, "ListIterator.Done", "true at end", "false")
 		}
-		if _, _, err := itr.Next(); err == nil {
-			return mm(path, "ListIterator.overread", "error", "nil error")
-		}
-		if n.MapIterator() != nil {
-			return mm(path, "MapIterator.on.list", "nil", "iterator")
+		if !o.PrimaryOnly {
+			if _, _, err := itr.Next(); err == nil {
+				return mm(path, "ListIterator.overread", "error", "nil error")
+			}
+			if n.MapIterator() != nil {
+				return mm(path, "MapIterator.on.list", "nil", "iterator")
+			}
 		}
 		if o.NoLookups {
 			return nil
 		}
-		light := ObsOpts{NoLookups: true}
+		light := ObsOpts{NoLookups: true, Typed: o.Typed, PrimaryOnly: o.PrimaryOnly}
 		for i := range v.Vs {
 			p := path + "/" + strconv.Itoa(i)
 			got, err := n.LookupByIndex(int64(i))
@@ -259,6 +274,9 @@ func (c Conc) checkObs1(n datamodel.Node, v Value, o ObsOpts, path string) *Mism
 				}
 			}
 		}
+		if o.PrimaryOnly {
+			return nil
+		}
 		for _, idx := range []int64{int64(len(v.Vs)), -1, math.MaxInt64} {
 			if got, err := n.LookupByIndex(idx); err == nil {
 				return mm(path, "LookupByIndex.out_of_range", "not_exists", fmt.Sprintf("ok (%v) idx=%d", got, idx))
@@ -271,6 +289,9 @@ func (c Conc) checkObs1(n datamodel.Node, v Value, o ObsOpts, path string) *Mism
 			return mm(path, "LookupByString.on.list", "wrong_kind", "ok")
 		}
 	default:
+		if o.PrimaryOnly {
+			return nil
+		}
 		if n.MapIterator() != nil {
 			return mm(path, "MapIterator.on.scalar", "nil", "iterator")
 		}
@@ -306,11 +327,46 @@ func (c Conc) checkAccessors(n datamodel.Node, v Value, o ObsOpts, path string) 
 		}
 	}
 	wrong := func(name string, err error) *Mismatch {
+		if o.PrimaryOnly {
+			return nil
+		}
 		if err == nil {
 			return mm(path, name+".wrong_kind", "wrong_kind error", "nil error")
 		}
 		if o.WrongKindErr && !isWrongKind(err) {
 			return mm(path, name+".wrong_kind.errtype", "ErrWrongKind", fmt.Sprintf("%T: %v", err, err))
+		}
+		return nil
+	}
+	if o.PrimaryOnly {
+		// only the accessor that applies to this kind
+		switch v.K {
+		case "bool":
+			if b, err := n.AsBool(); err != nil || b != g.B {
+				return mm(path, "AsBool", g.B, fmt.Sprintf("%v err=%v", b, err))
+			}
+		case "int":
+			if !g.IsUint {
+				if i, err := n.AsInt(); err != nil || i != g.I {
+					return mm(path, "AsInt", g.I, fmt.Sprintf("%v err=%v", i, err))
+				}
+			}
+		case "float":
+			if f, err := n.AsFloat(); err != nil || (math.Float64bits(f) != math.Float64bits(g.F) && !(math.IsNaN(f) && math.IsNaN(g.F))) {
+				return mm(path, "AsFloat", g.F, fmt.Sprintf("%v err=%v", f, err))
+			}
+		case "string":
+			if s, err := n.AsString(); err != nil || s != g.S {
+				return mm(path, "AsString", strconv.Quote(g.S), fmt.Sprintf("%q err=%v", s, err))
+			}
+		case "bytes":
+			if b, err := n.AsBytes(); err != nil || !bytes.Equal(b, g.Bs) {
+				return mm(path, "AsBytes", fmt.Sprintf("%x", g.Bs), fmt.Sprintf("%x err=%v", b, err))
+			}
+		case "link":
+			if l, err := n.AsLink(); err != nil || l == nil || l.Binary() != g.L.Binary() {
+				return mm(path, "AsLink", g.L, fmt.Sprintf("%v err=%v", l, err))
+			}
 		}
 		return nil
 	}
@@ -397,6 +453,9 @@ func Project(n datamodel.Node) (v Value, err error) {
 }
 
 func project(n datamodel.Node) (Value, error) {
+	if n.IsAbsent() {
+		return Value{K: "absent", A: []int{}, Ks: [][]int{}, Vs: []Value{}}, nil
+	}
 	v := Value{K: KindName(n.Kind()), A: []int{}, Ks: [][]int{}, Vs: []Value{}}
 	switch n.Kind() {
 	case datamodel.Kind_Map:
